@@ -66,7 +66,9 @@ class ModbusTransactionManager(object):
         self.backoff = kwargs.get('backoff', Defaults.Backoff) or 0.3
         self.retry_on_empty = kwargs.get('retry_on_empty', Defaults.RetryOnEmpty)
         self.retry_on_invalid = kwargs.get('retry_on_invalid', Defaults.RetryOnInvalid)
-        self.retries = kwargs.get('retries', Defaults.Retries) or 1
+        self.retries = kwargs.get('retries', Defaults.Retries)
+        if self.retries is None:
+            self.retries = 1
         self._transaction_lock = RLock()
         self._no_response_devices = []
         if client:
